@@ -63,6 +63,26 @@ def replay_file(path):
     """re-run a stored counterexample on the real pipeline; exit 1 if it still violates"""
     rec = json.load(open(path))
     E.build_driver()
+    if rec.get("kind") in ("rejected", "lexical") or rec.get("spec_verdict") in ("accepted", "reject"):
+        real = E.driver_batch("dump", [{"text": rec["text"], "debug": False, "args": rec.get("args", {})}])[0]
+        print("program:\n" + rec["text"])
+        accepted = bool(real.get("ok"))
+        print("the book's rules say:", rec.get("spec_verdict"), "| the compiler:", "accepts" if accepted else "rejects at %s: %s" % (real.get("stage"), (real.get("error") or "")[:300]))
+        want_accept = rec.get("spec_verdict") == "accepted"
+        if accepted != want_accept:
+            print("VIOLATION property=%s replay=%s" % (rec.get("property", "?"), path))
+            return 1
+        print("does not reproduce on the current tree")
+        return 0
+    if rec.get("kind") == "kani":
+        from . import kani_runner as K
+        ok, r2 = K.replay(rec["harness"])
+        print(json.dumps(r2, indent=1)[-3000:])
+        if ok:
+            print("VIOLATION property=%s replay=%s" % (rec.get("property", "?"), path))
+            return 1
+        print("does not reproduce on the current tree")
+        return 0
     real = E.driver_batch("run", [{"text": rec["text"], "debug": rec["debug"], "args": rec.get("args", {}),
                                    "witness": rec["witness"]}])[0]
     print("program:\n" + rec["text"])
@@ -84,13 +104,15 @@ def replay_file(path):
 def run_property(prop, cases, classify=None, technique="", functions=None, bounds=None, outside=None,
                  assumptions=None, jobs=None, timeout_s=120, extra_coverage=None, min_validated=0,
                  require_canaries=True, solver_kind="z3", kani=None, level="translation_validation",
-                 pre_violations=None):
+                 pre_violations=None, rejection_is_violation=False, case_budget_s=None):
     """cases: list of engine.Case.  classify(result) -> known-finding key or None."""
     tier, seed = tier_seed()
     t0 = time.time()
     flt = os.environ.get("VERIF_FILTER")  # debugging aid: run only the cases whose id contains the string
     if flt:
         cases = [c for c in cases if flt in c.cid]
+    if case_budget_s and "VERIF_CASE_BUDGET_S" not in os.environ:
+        os.environ["VERIF_CASE_BUDGET_S"] = str(case_budget_s)
     build_s = E.build_driver()
     from . import selftest
     st_n, st_bad = selftest.run(1500, seed)
@@ -120,7 +142,18 @@ def run_property(prop, cases, classify=None, technique="", functions=None, bound
         elif st in ("broken", "inconclusive", "canary_missed", "unconfirmed"):
             broken.append(r)
         elif st == "rejected":
-            rejected.append(r)
+            if rejection_is_violation:
+                # the property implies that these programs are accepted (they all are on the pinned tree)
+                rec = {"text": r.get("text"), "debug": False, "witness": {}, "spec_verdict": "accepted", "kind": "rejected",
+                       "detail": r.get("detail"), "tags": r.get("tags")}
+                path = save_replay(prop, r["cid"], rec)
+                key = classify(r) if classify else None
+                if key is not None and key in known:
+                    known_hits.append((key, r, path))
+                else:
+                    violations.append((r, path, key))
+            else:
+                rejected.append(r)
     n_obl = sum(1 for r in results if not r["mut"])
     n_held = by_status.get("held", 0) + by_status.get("rejected_as_expected", 0)
     canaries = [r for r in results if r["mut"]]
@@ -154,6 +187,9 @@ def run_property(prop, cases, classify=None, technique="", functions=None, bound
         "max_witness_bits_in_one_query": max([r["witness_bits"] for r in results] or [0]),
         "solver_time_s": round(sum(r["solver_s"] for r in results), 2),
         "solver": {"kind": solver_kind, "version": T.Solver(solver_kind, 5).version()},
+        "second_solver_cvc5": {"enabled": tier == "thorough", "unsat_confirmed": sum(r.get("cvc5_unsat", 0) for r in results),
+                               "unknown_or_timeout": sum(r.get("cvc5_unknown", 0) for r in results)},
+        "queries_closed_by_rewriting_alone": sum(r.get("closed_by_rewriting", 0) for r in results),
         "driver_build_s": round(build_s, 1),
         "functions_encoded": functions or [],
         "bounds": bounds or {},
